@@ -271,6 +271,35 @@ def run(ctx):
             except Exception as ex:
                 rec['err'] = 'raised-' + type(ex).__name__
             recs.append(rec)
+        # brackets given as arrays of another numeric type (integer end points, an integer lower with a float upper end, float32)
+        for i in range(36 if quick else 240):
+            n = int(rs.choice([1, 3, 10]))
+            r_ = rs.uniform(3.0, 97.0, n)
+            a_ = 10.0 ** rs.uniform(-3, 3, n)
+            cubic = bool(i % 3 == 0)
+
+            def fint(x, r_=r_, a_=a_, cubic=cubic):
+                d = np.asarray(x, dtype=float) - r_
+                return a_ * (d ** 3 if cubic else d)
+            form = ('int64', 'int32', 'int-lower-float-upper', 'float32')[i % 4]
+            lo_ = np.zeros(n, dtype={'int64': np.int64, 'int32': np.int32, 'int-lower-float-upper': np.int64, 'float32': np.float32}[form])
+            hi_ = np.full(n, 100, dtype={'int64': np.int64, 'int32': np.int32, 'int-lower-float-upper': np.float64, 'float32': np.float32}[form])
+            for alg in ('bisect', 'chandrupatla'):
+                if form == 'float32' and alg == 'chandrupatla':
+                    continue        # single-precision arithmetic cannot meet a 1e-9 contract; bisect converts its brackets to double
+                rec = {'alg': alg + '-typed-brackets', 'kind': form + (',cubic' if cubic else ',linear'), 'err': '', 'inside': True, 'accurate': True,
+                       'exactzero': False, 'n': n, 'lo': {'x': 0, 's': -1, 'm': 1}, 'hi': {'x': 1, 's': 1, 'm': 1}, 'evals': [], 'ret': -1}
+                try:
+                    x = np.asarray(getattr(optimize, alg)(fint, lo_.copy(), hi_.copy()), dtype=float)
+                    rec['inside'] = bool(np.all((x >= 0.0) & (x <= 100.0)))
+                    tolx = 1e-8 if alg == 'bisect' else 1e-9 * 100.0
+                    # a cubic is flat at its root: judged by the residual against the value one tolerance away from the root
+                    near = np.abs(x - r_) <= tolx * 1.01 + 4e-16 * np.abs(r_)
+                    zero = fint(x) == 0.0
+                    rec['accurate'] = bool(np.all(near | zero))
+                except Exception as ex:
+                    rec['err'] = 'raised-' + type(ex).__name__
+                recs.append(rec)
         for i in range(30 if quick else 300):
             n = int(rs.choice([1, 2, 5, 50]))
             f, lo, hi, root, kinds = family(rs, n)
